@@ -157,6 +157,7 @@ def check(case, ctx):
     far = any(min(hopsets[s][t]) >= 2 for s in range(n) for t in range(n) if s != t and hopsets[s][t])
     if unreachable:
         ctx.label("has-unreachable-pair")
+    ctx.target(sum(len(hopsets[s][t]) > 1 for s in range(n) for t in range(n)), "pairs-with-tied-routes-of-different-hop-count")
     if unreachable and far and multi:
         ctx.mark_nontrivial({"kind": kind, "W": W})
     lam_ref, eff_ref = _mean_stats(Dref) if n >= 2 else (None, None)
